@@ -223,6 +223,17 @@ def observe(case):
             # the matrix has a history: one of its frames carried the received identifier a moment ago (and was found under it),
             # then got its own identifier back by assignment; the received identifier is decoded after that
             if db.frames:
+                # ... and before that the frames were not flagged as J1939 frames yet (the flags are set afterwards, as
+                # canconvert's J1939 option does)
+                flags = [fx.is_j1939 for fx in db.frames]
+                for fx in db.frames:
+                    fx.is_j1939 = False
+                try:
+                    db.decode(cm.ArbitrationId(c["k"][0], c["k"][1]), b"\x55")
+                except Exception:  # noqa
+                    pass
+                for fx, fl in zip(db.frames, flags):
+                    fx.is_j1939 = fl
                 f0 = db.frames[len(c["frames"]) // 2]
                 own = (f0.arbitration_id.id, f0.arbitration_id.extended)
                 if (c["k"][0], bool(c["k"][1])) != (own[0], bool(own[1])):
